@@ -109,7 +109,7 @@ m = {
     "kind_free_text": "Rust harness: G1 sharded bounded-exhaustive enumeration runner with lock-step reference models (16 worker subprocesses, watchdog, abort attribution, replay files); G2 explicit-state search with stateright 0.31 over real objects; G3 deviation-bounded exploration of the simplify choice point"},
  ],
  "checks": checks,
- "notes": "Every check: exit 0 = held on everything explored, 1 = VIOLATION line(s) with a replay file, 2 = machinery failure (no verdict). Known findings: /verif/known_findings.json (all current entries are 'fixed' and suppress nothing). VERIF_SEED only permutes which worker runs which case.",
+ "notes": "Every check: exit 0 = held on everything explored, 1 = VIOLATION line(s) with a replay file, 2 = machinery failure (no verdict). Known findings: /verif/known_findings.json (entries with status 'fixed' suppress nothing; the three entries with status 'known' - two dense i64 matrices for C18, one 192-chamber numbering for C16 - make the check print a KNOWN-FINDING line and exit 0; the file is never written at run time). VERIF_SEED only permutes which worker runs which case.",
  "not_applicable": na,
 }
 json.dump(m, open('/verif/MANIFEST.json', 'w'), indent=1)
